@@ -2,12 +2,26 @@
 C02 — Branches, loops and 输出 follow the documented control flow.
 Theorems about the model's mechanism (return slot polled after each statement, loops catching
 signals), for every fuel, every program fragment, every VM state.
+
+Part one (the first 13 theorems): the generic loops the evaluator is built from (`stmtsLoop`, `whileM`,
+`untilM`, `untilIdxM`, `firstM`).  Part two ("The real constructs"): the statements themselves —
+`evalStmt (n+1) (.while …)`, `(.iterate …)`, `(.branch …)`, `evalPureStmtBlock`, `evalExecBlock` — in the order
+1 输出 (`return_propagates_block`, `return_stops_while`, `return_stops_iterate_*`, `return_through_branch`,
+`return_stops_everything`, `return_ends_body`), 4 如果, 2 结束循环/继续循环, 3 遍历, 5 value of a body,
+6 the same facts on the spec semantics.  Every implication is followed by an `example` that runs a toy
+program (toy numbers `Int`, machines `vm0`/`vm1`, programs of `Proofs/ControlFlow.lean` §Toy) through its
+hypotheses; where a program has more than one loop pass the hypotheses are checked by the kernel (`K`).
 -/
 import ZnVerif.Model.Interp
+import ZnVerif.Proofs.ControlFlow
+import ZnVerif.Proofs.ControlFlowSpec
 set_option linter.unusedSectionVars false
 
 namespace ZnVerif.Properties.C02
 open ZnVerif.Model
+
+open ZnVerif.Proofs.ControlFlow
+open ZnVerif.Proofs.ControlFlow.Toy   -- toy numbers, toy programs, kernel reflection: used by the `example`s only
 
 variable {ν : Type} [NumOps ν]
 
@@ -22,6 +36,9 @@ theorem return_sets_slot (n ln : Nat) (e : Expr) (s s' : VM ν) (v : Addr) (fr :
   simp only [evalStmt, Stmt.line]
   simp [bind, setTopFrame, modifyVM, hs, he, hst, pure]
 
+example : ∃ s'', evalStmt 3 retX vm0 = (.ok 0, s'') ∧ s''.stack = [{ moduleId := 0, callType := 1, ret := some 0 }] :=
+  return_sets_slot 2 0 (.str 0 "x") vm0 _ 0 { moduleId := 0, callType := 1 } [] rfl rfl rfl
+
 /-- the statement loop of a block: once the return slot is set after a statement, *no later statement
 is evaluated* — the result and state do not depend on `rest` at all. -/
 theorem no_statement_after_return (evalOne : Stmt → M ν Addr) (last : Option Addr) (st : Stmt) (rest : List Stmt)
@@ -30,6 +47,10 @@ theorem no_statement_after_return (evalOne : Stmt → M ν Addr) (last : Option 
     (h1 : evalOne st s = (.ok v, s')) (hst : s'.stack = fr :: frs) (hret : fr.ret = some rv) :
     stmtsLoop evalOne last (st :: rest) s = (.ok (some rv), s') := by
   simp [stmtsLoop, hnd, bind, h1, getReturnValue, topFrame, hst, hret, pure]
+
+example : ∃ s', stmtsLoop (evalStmt 3) none [retX, .nil] vm0 = (.ok (some 0), s') :=
+  ⟨_, no_statement_after_return (evalStmt 3) none retX [.nil] vm0 _ 0 0 { moduleId := 0, callType := 1, ret := some 0 } []
+    rfl rfl rfl rfl⟩
 
 /-- … and while the slot is empty the loop goes on with the next statement, remembering the last value
 (a body without 输出 yields the value of its final statement). -/
@@ -40,6 +61,10 @@ theorem statement_loop_continues (evalOne : Stmt → M ν Addr) (last : Option A
     stmtsLoop evalOne last (st :: rest) s = stmtsLoop evalOne (some v) rest s' := by
   simp [stmtsLoop, hnd, bind, h1, getReturnValue, topFrame, hst, hret, pure]
 
+example : ∃ s', stmtsLoop (evalStmt 3) none [.empty 0, .nil] vm0 = stmtsLoop (evalStmt 3) (some 0) [.nil] s' :=
+  ⟨_, statement_loop_continues (evalStmt 3) none (.empty 0) [.nil] vm0 _ 0 { moduleId := 0, callType := 1 } []
+    rfl rfl rfl rfl⟩
+
 theorem final_statement_value (evalOne : Stmt → M ν Addr) (last : Option Addr) (s : VM ν) :
     stmtsLoop evalOne last [] s = (.ok last, s) := by
   simp [stmtsLoop, pure]
@@ -49,10 +74,14 @@ theorem while_stops (k : Nat) (step : M ν Bool) (s s' : VM ν) (h : step s = (.
     whileM (k+1) step s = (.ok (), s') := by
   simp [whileM, bind, h, pure]
 
+example : whileM 1 (pure false) vm0 = (.ok (), vm0) := while_stops 0 (pure false) vm0 vm0 rfl
+
 /-- 每当 re-runs its step (condition test first) before every pass. -/
 theorem while_retests (k : Nat) (step : M ν Bool) (s s' : VM ν) (h : step s = (.ok true, s')) :
     whileM (k+1) step s = whileM k step s' := by
   simp [whileM, bind, h]
+
+example : whileM 2 (pure true) vm0 = whileM 1 (pure true) vm0 := while_retests 1 (pure true) vm0 vm0 rfl
 
 /-- 遍历: elements are visited in order; a pass answering "stop" (结束循环, or 输出 in the body) ends the
 loop — the remaining elements are not visited. -/
@@ -60,9 +89,16 @@ theorem iterate_stops {α} (f : α → M ν Bool) (x : α) (xs : List α) (s s' 
     untilM f (x :: xs) s = (.ok (), s') := by
   simp [untilM, bind, h, pure]
 
+example : untilM (fun (_ : Nat) => (pure true : M Int Bool)) [1, 2] vm0 = (.ok (), vm0) :=
+  iterate_stops _ 1 [2] vm0 vm0 rfl
+
 theorem iterate_in_order {α} (f : α → M ν Bool) (x : α) (xs : List α) (s s' : VM ν) (h : f x s = (.ok false, s')) :
     untilM f (x :: xs) s = untilM f xs s' := by
   simp [untilM, bind, h]
+
+example : untilM (fun (_ : Nat) => (pure false : M Int Bool)) [1, 2] vm0 =
+    untilM (fun (_ : Nat) => (pure false : M Int Bool)) [2] vm0 :=
+  iterate_in_order _ 1 [2] vm0 vm0 rfl
 
 /-- 1-based indices: the i-th pass (0-based position i) receives index i. `untilIdxM` is started at 0 by
 `遍历` and the pass adds 1 (see Interp.evalStmt). -/
@@ -71,16 +107,27 @@ theorem iterate_index_advances {α} (f : Nat → α → M ν Bool) (i : Nat) (x 
     untilIdxM f i (x :: xs) s = untilIdxM f (i + 1) xs s' := by
   simp [untilIdxM, bind, h]
 
+example : untilIdxM (fun _ (_ : Nat) => (pure false : M Int Bool)) 0 [1, 2] vm0 =
+    untilIdxM (fun _ (_ : Nat) => (pure false : M Int Bool)) 1 [2] vm0 :=
+  iterate_index_advances _ 0 1 [2] vm0 vm0 rfl
+
 /-- 如果/再如/否则: the first alternative that answers is the only one that runs. -/
 theorem branch_first_true {α β} (f : α → M ν (Option β)) (d : M ν β) (x : α) (xs : List α) (s s' : VM ν) (b : β)
     (h : f x s = (.ok (some b), s')) :
     firstM f d (x :: xs) s = (.ok b, s') := by
   simp [firstM, bind, h, pure]
 
+example : firstM (fun (x : Nat) => (pure (some x) : M Int (Option Nat))) (pure 0) [1, 2] vm0 = (.ok 1, vm0) :=
+  branch_first_true _ _ 1 [2] vm0 vm0 1 rfl
+
 theorem branch_skips_false {α β} (f : α → M ν (Option β)) (d : M ν β) (x : α) (xs : List α) (s s' : VM ν)
     (h : f x s = (.ok none, s')) :
     firstM f d (x :: xs) s = firstM f d xs s' := by
   simp [firstM, bind, h]
+
+example : firstM (fun (_ : Nat) => (pure none : M Int (Option Nat))) (pure 0) [1, 2] vm0 =
+    firstM (fun (_ : Nat) => (pure none : M Int (Option Nat))) (pure 0) [2] vm0 :=
+  branch_skips_false _ _ 1 [2] vm0 vm0 rfl
 
 theorem branch_else_last {α β} (f : α → M ν (Option β)) (d : M ν β) (s : VM ν) :
     firstM f d [] s = d s := by
@@ -95,5 +142,893 @@ theorem branch_non_bool_is_error (n ln : Nat) (c : Expr) (ifB elseB : Option (Li
     evalStmt (n+1) (.branch ln c ifB others he elseB) s = (.err (.rt 80), s') := by
   simp only [evalStmt, Stmt.line]
   cases cell <;> simp_all [bind, setTopFrame, modifyVM, getCell, rtErr, throwE]
+
+
+example : ∃ s', evalStmt 3 (.branch 0 (.str 0 "x") (some [.nil]) [] false none) vm0 = (.err (.rt 80), s') :=
+  ⟨_, branch_non_bool_is_error 2 0 (.str 0 "x") (some [.nil]) none [] false vm0 _ 0 (.str "x")
+    { moduleId := 0, callType := 1 } [] rfl rfl rfl (by intro b h; cases h)⟩
+
+/-! # The real constructs
+
+From here on the theorems are about `evalStmt (n+1) (.while …)`, `(.iterate …)`, `(.branch …)`,
+`evalPureStmtBlock`, `evalExecBlock` themselves — every fuel `n`, every body, every machine state.
+Vocabulary (defined in `Proofs/ControlFlow.lean`, each tied to the model by an unfolding lemma proved there):
+`setLine ln s` = `s` with the line of the top frame set (first thing `evalStmt` does); `enterScope`/`leaveScope h`
+= `BeginBoundScope` / the deferred `EndScope` (they touch `scopes` only); `retSlot s` = the return slot of the
+top frame; `ReturnSet s` = that slot holds a value; `newNull s` = allocate 空 (the value of 如果/每当/遍历);
+`Steps ev none pre s last s1` = the statements `pre` ran from `s`, each ended normally with the slot empty;
+`passVerdict r s` = how a loop reads the end (`r`, `s`) of a pass: `some true` go on (normal end with the slot
+empty, or 继续循环), `some false` stop (结束循环, or normal end with the slot set), `none` propagate;
+`WhilePasses n c body k s s1` = k complete passes (condition evaluated first and 真 each time);
+`ListPasses … i items s s1` / `DictPasses … target keys s s1` = complete passes for those elements in that order. -/
+
+
+/-! ## 1. 输出 -/
+
+/-- `return_propagates_block`.  In a block `pre ++ st :: post`: if the statements `pre` ran without 输出 and `st`
+ends normally leaving the return slot set, the block yields the value in the slot; the final state is the one
+after `st` with the block's scope ended — `post` is not evaluated (it does not occur on the right-hand side),
+and the slot is still set, so the construct that contains the block sees it as well. -/
+theorem return_propagates_block (n : Nat) (pre post : List Stmt) (st : Stmt) (s s1 s2 : VM ν)
+    (last : Option Addr) (v rv : Addr)
+    (hpre : Steps (evalStmt n) none pre (enterScope s) last s1)
+    (hnd : isDecl st = false) (hst : evalStmt n st s1 = (.ok v, s2)) (hret : retSlot s2 = some rv) :
+    evalPureStmtBlock (n+1) (some (pre ++ st :: post)) s = (.ok (some rv), leaveScope (scopeHandle s) s2) ∧
+    ReturnSet (leaveScope (scopeHandle s) s2) := by
+  constructor
+  · rw [evalPureStmtBlock_eq]
+    apply withScope_of
+    rw [stmtsLoop_steps hpre]
+    exact stmtsLoop_hit hnd hst hret
+  · exact (returnSet_iff _).2 ⟨rv, by rw [retSlot_leaveScope]; exact hret⟩
+
+example : ∃ rv s', evalPureStmtBlock 4 (some ([.empty 0] ++ retX :: [.nil])) vm0 = (.ok (some rv), s') ∧ ReturnSet s' :=
+  ⟨_, _, return_propagates_block 3 [.empty 0] [.nil] retX vm0 _ _ _ _ _
+    (.stmt rfl (run_ok (evalStmt 3 _) _ K) K (.nil _ _)) rfl (run_ok (evalStmt 3 _) _ K) (slot_set _ K)⟩
+
+/-- a block none of whose statements leaves the slot set runs all of them and yields the value of the last one -/
+theorem block_runs_to_end (n : Nat) (stmts : List Stmt) (s s1 : VM ν) (last : Option Addr)
+    (h : Steps (evalStmt n) none stmts (enterScope s) last s1) :
+    evalPureStmtBlock (n+1) (some stmts) s = (.ok last, leaveScope (scopeHandle s) s1) := by
+  rw [evalPureStmtBlock_eq]
+  apply withScope_of
+  have := stmtsLoop_steps h []
+  simpa [stmtsLoop, pure] using this
+
+example : ∃ last s', evalPureStmtBlock 4 (some [.empty 0, .expr (.str 0 "x")]) vm0 = (.ok last, s') :=
+  ⟨_, _, block_runs_to_end 3 _ vm0 _ _
+    (.stmt rfl (run_ok (evalStmt 3 _) _ K) K (.stmt rfl (run_ok (evalStmt 3 _) _ K) K (.nil _ _)))⟩
+
+/-- 结束循环 / 继续循环 (and every error) raised by a statement of a block leave the block at once, as that same
+signal: the block does not catch it, the rest of the block is not evaluated. -/
+theorem signal_propagates_block (n : Nat) (pre post : List Stmt) (st : Stmt) (s s1 s2 : VM ν)
+    (last : Option Addr) (e : Err)
+    (hpre : Steps (evalStmt n) none pre (enterScope s) last s1)
+    (hnd : isDecl st = false) (hst : evalStmt n st s1 = (.err e, s2)) :
+    evalPureStmtBlock (n+1) (some (pre ++ st :: post)) s = (.err e, leaveScope (scopeHandle s) s2) := by
+  rw [evalPureStmtBlock_eq]
+  apply withScope_of
+  rw [stmtsLoop_steps hpre]
+  exact stmtsLoop_fail hnd hst
+
+example : ∃ s', evalPureStmtBlock 4 (some ([.empty 0] ++ .break 0 :: [.nil])) vm0 = (.err .sigBreak, s') :=
+  ⟨_, signal_propagates_block 3 [.empty 0] [.nil] (.break 0) vm0 _ _ _ _
+    (.stmt rfl (run_ok (evalStmt 3 _) _ K) K (.nil _ _)) rfl (run_err (evalStmt 3 _) _ _ K)⟩
+
+/-- `return_stops_while`.  每当: after k complete passes, if the condition is 真 once more and the body ends
+normally leaving the return slot set, the loop is over: the statement is `ok` (value 空), its final state is the
+state after *that* pass (plus the 空 cell) — no further condition test, no further pass — and the slot is still set. -/
+theorem return_stops_while (n ln k : Nat) (c : Expr) (body : Option (List Stmt)) (s s1 s2 s3 : VM ν)
+    (a rv : Addr) (r : Option Addr)
+    (hp : WhilePasses n c body k (setLine ln s) s1) (hk : k < n)
+    (hc : evalExpr n c s1 = (.ok a, s2)) (ht : s2.heap[a]? = some (.bool true))
+    (hb : evalPureStmtBlock n body s2 = (.ok r, s3)) (hret : retSlot s3 = some rv) :
+    evalStmt (n+1) (.while ln c body) s = newNull s3 ∧ retSlot (newNull s3).2 = some rv := by
+  refine ⟨while_stops_after hp hk (whileStep_pass hc ht hb ?_), hret⟩
+  simp [passVerdict, hret]
+
+/-- the 输出 is executed in the *second* pass (k = 1): `每当 真： 如果 d： 输出 "x"。 d = t` with d = 假, t = 真 -/
+example : ∃ s3 rv, evalStmt 7 (.while 0 cTrue (some retSecondTime)) vm1 = newNull s3 ∧ retSlot (newNull s3).2 = some rv :=
+  ⟨_, _, return_stops_while 6 0 1 cTrue (some retSecondTime) vm1 _ _ _ _ _ _
+    (.succ (run_ok (evalExpr 6 cTrue) _ K) (cell_bool _ true K) (run_ok (evalPureStmtBlock 6 _) _ K) K (.zero _))
+    (by decide) (run_ok (evalExpr 6 cTrue) _ K) (cell_bool _ true K)
+    (run_ok (evalPureStmtBlock 6 _) _ K) (slot_set _ K)⟩
+
+/-- `return_stops_iterate` (list).  遍历 over the list `pre ++ x :: post`: after complete passes for `pre`, if the
+pass for `x` ends normally leaving the slot set, the loop is over; `post` is not visited. -/
+theorem return_stops_iterate_list (n ln : Nat) (e : Expr) (names : List Ident) (body : Option (List Stmt))
+    (s s1 s2 s3 s4 s5 : VM ν) (target x rv : Addr) (r : Option Addr) (slots : Option String × Option String)
+    (pre post : List Addr)
+    (hT : evalExpr n e (enterScope (setLine ln s)) = (.ok target, s1))
+    (hS : iterSlots names s1 = (.ok slots, s2))
+    (hcell : s2.heap[target]? = some (.arr (pre ++ x :: post)))
+    (hp : ListPasses n names.length slots body 0 pre s2 s3)
+    (hbind : iterBind n names.length slots s3.heap.size x
+      (pushCell (.num (NumOps.ofInt ((pre.length : Int) + 1))) s3) = (.ok (), s4))
+    (hb : evalPureStmtBlock n body s4 = (.ok r, s5)) (hret : retSlot s5 = some rv) :
+    evalStmt (n+1) (.iterate ln e names body) s = newNull (leaveScope (scopeHandle (setLine ln s)) s5) ∧
+    retSlot (newNull (leaveScope (scopeHandle (setLine ln s)) s5)).2 = some rv := by
+  refine ⟨iterate_list_ok hT hS hcell ?_, by rw [retSlot_newNull, retSlot_leaveScope]; exact hret⟩
+  rw [untilIdxM_passes hp]
+  apply untilIdxM_stop
+  have := iterListStep_pass (i := 0 + pre.length) (by simpa using hbind) hb
+    (show passVerdict (.ok r) s5 = some false by simp [passVerdict, hret])
+  simpa using this
+
+/-- `遍历 ["a","b","c"] 以 v： 如果 v == "b"： 输出 "x"`: one complete pass, the 输出 in the second, "c" not visited -/
+example : ∃ s5 rv, evalStmt 7 (.iterate 0 abc [vId] (some [retIfB])) vm0 = newNull s5 ∧ retSlot (newNull s5).2 = some rv :=
+  ⟨_, _, return_stops_iterate_list 6 0 abc [vId] (some [retIfB]) vm0 _ _ _ _ _ _ _ _ _ _ [0] [2]
+    (run_ok (evalExpr 6 abc) _ K) (run_ok (iterSlots [vId]) _ K) (cell_arr _ [0, 1, 2] K)
+    (.cons (run_ok (iterBind 6 1 _ _ _) _ K) (run_ok (evalPureStmtBlock 6 _) _ K) K (.nil _ _))
+    (run_ok (iterBind 6 1 _ _ _) _ K) (run_ok (evalPureStmtBlock 6 _) _ K) (slot_set _ K)⟩
+
+/-- `return_stops_iterate` (dictionary): the same for the key order `pre ++ k :: post`. -/
+theorem return_stops_iterate_dict (n ln : Nat) (e : Expr) (names : List Ident) (body : Option (List Stmt))
+    (s s1 s2 s3 s4 s5 : VM ν) (target v rv : Addr) (r : Option Addr) (slots : Option String × Option String)
+    (vals vals' : List (String × Addr)) (ord' pre post : List String) (k : String)
+    (hT : evalExpr n e (enterScope (setLine ln s)) = (.ok target, s1))
+    (hS : iterSlots names s1 = (.ok slots, s2))
+    (hcell : s2.heap[target]? = some (.hm vals (pre ++ k :: post)))
+    (hp : DictPasses n names.length slots body target pre s2 s3)
+    (hcell' : s3.heap[target]? = some (.hm vals' ord')) (hl : lookup k vals' = some v)
+    (hbind : iterBind n names.length slots s3.heap.size v (pushCell (.str k) s3) = (.ok (), s4))
+    (hb : evalPureStmtBlock n body s4 = (.ok r, s5)) (hret : retSlot s5 = some rv) :
+    evalStmt (n+1) (.iterate ln e names body) s = newNull (leaveScope (scopeHandle (setLine ln s)) s5) ∧
+    retSlot (newNull (leaveScope (scopeHandle (setLine ln s)) s5)).2 = some rv := by
+  refine ⟨iterate_dict_ok hT hS hcell ?_, by rw [retSlot_newNull, retSlot_leaveScope]; exact hret⟩
+  rw [untilM_passes hp]
+  apply untilM_stop
+  have := iterDictStep_pass hcell' hl hbind hb
+    (show passVerdict (.ok r) s5 = some false by simp [passVerdict, hret])
+  simpa using this
+
+/-- `遍历 [p="a", q="b", r="c"] 以 v： 如果 v == "b"： 输出 "x"`: stops at key q, r not visited -/
+example : ∃ s5 rv, evalStmt 7 (.iterate 0 pqr [vId] (some [retIfB])) vm0 = newNull s5 ∧ retSlot (newNull s5).2 = some rv :=
+  ⟨_, _, return_stops_iterate_dict 6 0 pqr [vId] (some [retIfB]) vm0 _ _ _ _ _ _ 1 _ _ _ _ _ _ ["p"] ["r"] "q"
+    (run_ok (evalExpr 6 pqr) _ K) (run_ok (iterSlots [vId]) _ K)
+    (cell_hm _ [("p", 0), ("q", 1), ("r", 2)] ["p", "q", "r"] K)
+    (.cons (cell_hm _ [("p", 0), ("q", 1), ("r", 2)] ["p", "q", "r"] K) (v := 0) K
+      (run_ok (iterBind 6 1 _ _ _) _ K) (run_ok (evalPureStmtBlock 6 _) _ K) K (.nil _))
+    (cell_hm _ [("p", 0), ("q", 1), ("r", 2)] ["p", "q", "r"] K) K
+    (run_ok (iterBind 6 1 _ _ _) _ K) (run_ok (evalPureStmtBlock 6 _) _ K) (slot_set _ K)⟩
+
+/-! ## 4. 如果 / 再如 / 否则 (placed here because 输出 through a branch needs it) -/
+
+/-- the 如果 condition is 真: exactly the 如果 block is run — whatever it does —, then the value is 空.  No 再如
+condition is evaluated, no other block is run (`others`, `elseB` do not occur on the right). -/
+theorem branch_runs_if_block (n ln : Nat) (c : Expr) (ifB elseB : Option (List Stmt))
+    (others : List (Expr × Option (List Stmt))) (he : Bool) (s s1 : VM ν) (a : Addr)
+    (hc : evalExpr n c (setLine ln s) = (.ok a, s1)) (ht : s1.heap[a]? = some (.bool true)) :
+    evalStmt (n+1) (.branch ln c ifB others he elseB) s =
+      ((do let _ ← evalPureStmtBlock n ifB; newNull) : M ν Addr) s1 := by
+  rw [evalStmt_branch, bind_ok hc]
+  have hg : getCell a s1 = (.ok (.bool true), s1) := by simp [getCell, ht]
+  rw [bind_ok hg]
+
+example : ∃ s1, evalStmt 5 (.branch 0 cTrue (some [retX]) [(.nil, none)] true none) vm0 =
+    ((do let _ ← evalPureStmtBlock 4 (some [retX]); newNull) : M Int Addr) s1 :=
+  ⟨_, branch_runs_if_block 4 0 cTrue _ _ _ _ vm0 _ _ (run_ok (evalExpr 4 cTrue) _ K) (cell_bool _ true K)⟩
+
+/-- the 如果 condition and the conditions of the alternatives `pre` are 假 (evaluated in that order), the next
+one is 真: exactly its block is run, the later alternatives `post` and 否则 are not looked at. -/
+theorem branch_runs_first_true_other (n ln : Nat) (c oc : Expr) (ifB elseB ob : Option (List Stmt))
+    (pre post : List (Expr × Option (List Stmt))) (he : Bool) (s s1 s2 s3 : VM ν) (a b : Addr)
+    (hc : evalExpr n c (setLine ln s) = (.ok a, s1)) (hf : s1.heap[a]? = some (.bool false))
+    (hpre : CondsFalse n pre s1 s2)
+    (hoc : evalExpr n oc s2 = (.ok b, s3)) (hot : s3.heap[b]? = some (.bool true)) :
+    evalStmt (n+1) (.branch ln c ifB (pre ++ (oc, ob) :: post) he elseB) s =
+      ((do let _ ← evalPureStmtBlock n ob; newNull) : M ν Addr) s3 := by
+  rw [evalStmt_branch, bind_ok hc]
+  have hg : getCell a s1 = (.ok (.bool false), s1) := by simp [getCell, hf]
+  rw [bind_ok hg]
+  show (firstM _ _ _ >>= fun _ => newNull) s1 = _
+  have h1 := firstM_condsFalse hpre (branchElse n he elseB) ((oc, ob) :: post) (branchOther n)
+    (fun o s s1 a h1 h2 => branchOther_false h1 h2)
+  have h2 : branchOther n (oc, ob) s2 = _ := branchOther_true (o := (oc, ob)) hoc hot
+  simp only [bind, firstM, h1, h2]
+  rcases evalPureStmtBlock n ob s3 with ⟨r, s4⟩
+  cases r <;> simp [pure]
+
+/-- `如果 假： ‹nil› 再如 假： ‹nil› 再如 真： 输出 "x" 再如 ‹nil expression›： …` -/
+example : ∃ s3, evalStmt 5 (.branch 0 cFalse (some [.nil]) ([(cFalse, some [.nil])] ++ (cTrue, some [retX]) :: [(.nil, none)])
+      true (some [.nil])) vm0 = ((do let _ ← evalPureStmtBlock 4 (some [retX]); newNull) : M Int Addr) s3 :=
+  ⟨_, branch_runs_first_true_other 4 0 cFalse cTrue _ _ _ [(cFalse, some [.nil])] _ _ vm0 _ _ _ _ _
+    (run_ok (evalExpr 4 cFalse) _ K) (cell_bool _ false K)
+    (.cons (run_ok (evalExpr 4 cFalse) _ K) (cell_bool _ false K) (.nil _))
+    (run_ok (evalExpr 4 cTrue) _ K) (cell_bool _ true K)⟩
+
+/-- no condition is 真 and there is a 否则: exactly the 否则 block is run -/
+theorem branch_runs_else (n ln : Nat) (c : Expr) (ifB elseB : Option (List Stmt))
+    (others : List (Expr × Option (List Stmt))) (s s1 s2 : VM ν) (a : Addr)
+    (hc : evalExpr n c (setLine ln s) = (.ok a, s1)) (hf : s1.heap[a]? = some (.bool false))
+    (hall : CondsFalse n others s1 s2) :
+    evalStmt (n+1) (.branch ln c ifB others true elseB) s =
+      ((do let _ ← evalPureStmtBlock n elseB; newNull) : M ν Addr) s2 := by
+  rw [evalStmt_branch, bind_ok hc]
+  have hg : getCell a s1 = (.ok (.bool false), s1) := by simp [getCell, hf]
+  rw [bind_ok hg]
+  show (firstM _ _ _ >>= fun _ => newNull) s1 = _
+  have h1 := firstM_condsFalse hall (branchElse n true elseB) [] (branchOther n)
+    (fun o s s1 a h1 h2 => branchOther_false h1 h2)
+  simp only [List.append_nil] at h1
+  rw [bind_eq_of_eq (h1.trans (rfl : _ = branchElse n true elseB s2))]
+  simp [branchElse]
+
+example : ∃ s2, evalStmt 5 (.branch 0 cFalse (some [.nil]) [(cFalse, some [.nil])] true (some [retX])) vm0 =
+    ((do let _ ← evalPureStmtBlock 4 (some [retX]); newNull) : M Int Addr) s2 :=
+  ⟨_, branch_runs_else 4 0 cFalse _ _ [(cFalse, some [.nil])] vm0 _ _ _
+    (run_ok (evalExpr 4 cFalse) _ K) (cell_bool _ false K)
+    (.cons (run_ok (evalExpr 4 cFalse) _ K) (cell_bool _ false K) (.nil _))⟩
+
+/-- no condition is 真 and there is no 否则: nothing is run; the value is 空 -/
+theorem branch_runs_nothing (n ln : Nat) (c : Expr) (ifB elseB : Option (List Stmt))
+    (others : List (Expr × Option (List Stmt))) (s s1 s2 : VM ν) (a : Addr)
+    (hc : evalExpr n c (setLine ln s) = (.ok a, s1)) (hf : s1.heap[a]? = some (.bool false))
+    (hall : CondsFalse n others s1 s2) :
+    evalStmt (n+1) (.branch ln c ifB others false elseB) s = newNull s2 := by
+  rw [evalStmt_branch, bind_ok hc]
+  have hg : getCell a s1 = (.ok (.bool false), s1) := by simp [getCell, hf]
+  rw [bind_ok hg]
+  show (firstM _ _ _ >>= fun _ => newNull) s1 = _
+  have h1 := firstM_condsFalse hall (branchElse n false elseB) [] (branchOther n)
+    (fun o s s1 a h1 h2 => branchOther_false h1 h2)
+  simp only [List.append_nil] at h1
+  rw [bind_eq_of_eq (h1.trans (rfl : _ = branchElse n false elseB s2))]
+  rfl
+
+example : ∃ s2, evalStmt 5 (.branch 0 cFalse (some [.nil]) [(cFalse, some [.nil])] false (some [.nil])) vm0 = newNull s2 :=
+  ⟨_, branch_runs_nothing 4 0 cFalse _ _ [(cFalse, some [.nil])] vm0 _ _ _
+    (run_ok (evalExpr 4 cFalse) _ K) (cell_bool _ false K)
+    (.cons (run_ok (evalExpr 4 cFalse) _ K) (cell_bool _ false K) (.nil _))⟩
+
+/-- a non-boolean 再如 condition is error 80; no block is run -/
+theorem branch_other_non_bool_is_error (n ln : Nat) (c oc : Expr) (ifB elseB ob : Option (List Stmt))
+    (pre post : List (Expr × Option (List Stmt))) (he : Bool) (s s1 s2 s3 : VM ν) (a b : Addr) (cell : Cell ν)
+    (hc : evalExpr n c (setLine ln s) = (.ok a, s1)) (hf : s1.heap[a]? = some (.bool false))
+    (hpre : CondsFalse n pre s1 s2)
+    (hoc : evalExpr n oc s2 = (.ok b, s3)) (hcell : s3.heap[b]? = some cell) (hnb : ∀ x, cell ≠ .bool x) :
+    evalStmt (n+1) (.branch ln c ifB (pre ++ (oc, ob) :: post) he elseB) s = (.err (.rt 80), s3) := by
+  rw [evalStmt_branch, bind_ok hc]
+  have hg : getCell a s1 = (.ok (.bool false), s1) := by simp [getCell, hf]
+  rw [bind_ok hg]
+  show (firstM _ _ _ >>= fun _ => newNull) s1 = _
+  have h1 := firstM_condsFalse hpre (branchElse n he elseB) ((oc, ob) :: post) (branchOther n)
+    (fun o s s1 a h1 h2 => branchOther_false h1 h2)
+  have h2 : branchOther n (oc, ob) s2 = (.err (.rt 80), s3) := by
+    unfold branchOther
+    rw [bind_ok hoc]
+    have hg' : getCell b s3 = (.ok cell, s3) := by simp [getCell, hcell]
+    rw [bind_ok hg']
+    cases cell <;> simp_all [rtErr, throwE]
+  simp [bind, firstM, h1, h2]
+
+example : ∃ s3, evalStmt 5 (.branch 0 cFalse (some [.nil]) ([] ++ (.str 0 "x", some [.nil]) :: []) false none) vm0 =
+    (.err (.rt 80), s3) :=
+  ⟨_, branch_other_non_bool_is_error 4 0 cFalse (.str 0 "x") _ _ _ [] [] _ vm0 _ _ _ _ _ (.str "x")
+    (run_ok (evalExpr 4 cFalse) _ K) (cell_bool _ false K) (.nil _)
+    (run_ok (evalExpr 4 (.str 0 "x")) _ K) (cell_str _ "x" K) (by intro x h; cases h)⟩
+
+/-- `branch_first_true` on the statement: the four cases together.  `taken` is the block that runs. -/
+theorem branch_first_true_stmt (n ln : Nat) (c : Expr) (ifB elseB : Option (List Stmt))
+    (others : List (Expr × Option (List Stmt))) (he : Bool) (s s1 : VM ν) (a : Addr) (bv : Bool)
+    (hc : evalExpr n c (setLine ln s) = (.ok a, s1)) (hbv : s1.heap[a]? = some (.bool bv)) :
+    (bv = true → evalStmt (n+1) (.branch ln c ifB others he elseB) s =
+        ((do let _ ← evalPureStmtBlock n ifB; newNull) : M ν Addr) s1) ∧
+    (bv = false → ∀ pre oc ob post s2 s3 b, others = pre ++ (oc, ob) :: post → CondsFalse n pre s1 s2 →
+        evalExpr n oc s2 = (.ok b, s3) → s3.heap[b]? = some (.bool true) →
+        evalStmt (n+1) (.branch ln c ifB others he elseB) s =
+          ((do let _ ← evalPureStmtBlock n ob; newNull) : M ν Addr) s3) ∧
+    (bv = false → ∀ s2, CondsFalse n others s1 s2 →
+        evalStmt (n+1) (.branch ln c ifB others he elseB) s =
+          if he then ((do let _ ← evalPureStmtBlock n elseB; newNull) : M ν Addr) s2 else newNull s2) := by
+  refine ⟨?_, ?_, ?_⟩
+  · rintro rfl; exact branch_runs_if_block n ln c ifB elseB others he s s1 a hc hbv
+  · rintro rfl pre oc ob post s2 s3 b rfl hpre hoc hot
+    exact branch_runs_first_true_other n ln c oc ifB elseB ob pre post he s s1 s2 s3 a b hc hbv hpre hoc hot
+  · rintro rfl s2 hall
+    cases he
+    · simpa using branch_runs_nothing n ln c ifB elseB others s s1 s2 a hc hbv hall
+    · simpa using branch_runs_else n ln c ifB elseB others s s1 s2 a hc hbv hall
+
+example : ∃ s1, evalStmt 5 (.branch 0 cTrue (some [retX]) [] false none) vm0 =
+    ((do let _ ← evalPureStmtBlock 4 (some [retX]); newNull) : M Int Addr) s1 :=
+  ⟨_, (branch_first_true_stmt 4 0 cTrue _ none [] false vm0 _ _ true
+    (run_ok (evalExpr 4 cTrue) _ K) (cell_bool _ true K)).1 rfl⟩
+
+/-- `return_through_branch`.  If the block that a 如果 statement runs (the state `sb` is where it starts, see the
+three theorems above) ends normally leaving the slot set, the 如果 statement is `ok` and the slot is still set:
+the enclosing block stops (`return_propagates_block`), the enclosing loop stops (`return_stops_while` …). -/
+theorem return_through_branch (n : Nat) (blk : Option (List Stmt)) (sb s2 : VM ν) (r : Option Addr) (rv : Addr)
+    (hb : evalPureStmtBlock n blk sb = (.ok r, s2)) (hret : retSlot s2 = some rv) :
+    ((do let _ ← evalPureStmtBlock n blk; newNull) : M ν Addr) sb = newNull s2 ∧
+    retSlot (newNull s2).2 = some rv :=
+  ⟨bind_ok hb, hret⟩
+
+example : ∃ s2 rv, ((do let _ ← evalPureStmtBlock 4 (some [retX, .nil]); newNull) : M Int Addr) vm0 = newNull s2 ∧
+    retSlot (newNull s2).2 = some rv :=
+  ⟨_, _, return_through_branch 4 (some [retX, .nil]) vm0 _ _ _ (run_ok (evalPureStmtBlock 4 _) _ K) (slot_set _ K)⟩
+
+/-- 结束循环 / 继续循环 / an error in the block that a 如果 statement runs is the outcome of the 如果 statement -/
+theorem signal_through_branch (n : Nat) (blk : Option (List Stmt)) (sb s2 : VM ν) (e : Err)
+    (hb : evalPureStmtBlock n blk sb = (.err e, s2)) :
+    ((do let _ ← evalPureStmtBlock n blk; newNull) : M ν Addr) sb = (.err e, s2) :=
+  bind_err hb
+
+example : ∃ s2, ((do let _ ← evalPureStmtBlock 4 (some [.break 0, .nil]); newNull) : M Int Addr) vm0 = (.err .sigBreak, s2) :=
+  ⟨_, signal_through_branch 4 (some [.break 0, .nil]) vm0 _ _ (run_err (evalPureStmtBlock 4 _) _ _ K)⟩
+
+/-! ## 2. 结束循环 / 继续循环 act on the innermost loop -/
+
+/-- `break_innermost_only` (每当).  If in some pass the body of *this* loop ends with the 结束循环 signal, this loop
+catches it: the statement is `ok` with value 空 in the state after that pass (no further test, no further pass).
+Being `ok`, the statement is to its enclosing block like any finished statement (next theorem). -/
+theorem break_innermost_only_while (n ln k : Nat) (c : Expr) (body : Option (List Stmt)) (s s1 s2 s3 : VM ν) (a : Addr)
+    (hp : WhilePasses n c body k (setLine ln s) s1) (hk : k < n)
+    (hc : evalExpr n c s1 = (.ok a, s2)) (ht : s2.heap[a]? = some (.bool true))
+    (hb : evalPureStmtBlock n body s2 = (.err .sigBreak, s3)) :
+    evalStmt (n+1) (.while ln c body) s = newNull s3 :=
+  while_stops_after hp hk (whileStep_pass hc ht hb rfl)
+
+/-- `每当 真： 如果 d： 结束循环。 d = t`: one complete pass, 结束循环 in the second -/
+example : ∃ s3, evalStmt 7 (.while 0 cTrue (some breakSecondTime)) vm1 = newNull s3 :=
+  ⟨_, break_innermost_only_while 6 0 1 cTrue (some breakSecondTime) vm1 _ _ _ _
+    (.succ (run_ok (evalExpr 6 cTrue) _ K) (cell_bool _ true K) (run_ok (evalPureStmtBlock 6 _) _ K) K (.zero _))
+    (by decide) (run_ok (evalExpr 6 cTrue) _ K) (cell_bool _ true K) (run_err (evalPureStmtBlock 6 _) _ _ K)⟩
+
+/-- … so the block that contains the loop (the body of an outer loop, for instance) goes on with the statement
+after the loop: the signal does not reach any outer loop. -/
+theorem break_resumes_enclosing_block (n ln k : Nat) (c : Expr) (body : Option (List Stmt)) (s s1 s2 s3 : VM ν) (a : Addr)
+    (last : Option Addr) (rest : List Stmt)
+    (hp : WhilePasses n c body k (setLine ln s) s1) (hk : k < n)
+    (hc : evalExpr n c s1 = (.ok a, s2)) (ht : s2.heap[a]? = some (.bool true))
+    (hb : evalPureStmtBlock n body s2 = (.err .sigBreak, s3)) (hempty : retSlot s3 = none) :
+    stmtsLoop (evalStmt (n+1)) last (.while ln c body :: rest) s =
+      stmtsLoop (evalStmt (n+1)) (some s3.heap.size) rest (newNull s3).2 := by
+  have h := break_innermost_only_while n ln k c body s s1 s2 s3 a hp hk hc ht hb
+  simp [stmtsLoop, isDecl, bind, h, newNull_eq, getReturnValue_eq, retSlot, pure]
+  simp [retSlot] at hempty
+  simp [hempty]
+
+example : ∃ a s', stmtsLoop (evalStmt 7) none (.while 0 cTrue (some breakSecondTime) :: [.empty 0]) vm1 =
+    stmtsLoop (evalStmt 7) (some a) [.empty 0] s' :=
+  ⟨_, _, break_resumes_enclosing_block 6 0 1 cTrue (some breakSecondTime) vm1 _ _ _ _ none [.empty 0]
+    (.succ (run_ok (evalExpr 6 cTrue) _ K) (cell_bool _ true K) (run_ok (evalPureStmtBlock 6 _) _ K) K (.zero _))
+    (by decide) (run_ok (evalExpr 6 cTrue) _ K) (cell_bool _ true K) (run_err (evalPureStmtBlock 6 _) _ _ K) K⟩
+
+/-- `continue_innermost_only` (每当).  If the body ends with the 继续循环 signal, this loop catches it and the pass
+counts as complete: the loop goes on with its next turn, which starts by evaluating the condition again
+(`whileStep` = test, then pass).  Hence k passes become k+1 passes, and every statement about "after k+1 passes"
+(`while_ends_when_condition_false`, `return_stops_while`, …) applies. -/
+theorem continue_innermost_only_while (n k : Nat) (c : Expr) (body : Option (List Stmt)) (s0 s1 s2 s3 : VM ν) (a : Addr)
+    (hp : WhilePasses n c body k s0 s1)
+    (hc : evalExpr n c s1 = (.ok a, s2)) (ht : s2.heap[a]? = some (.bool true))
+    (hb : evalPureStmtBlock n body s2 = (.err .sigContinue, s3)) :
+    WhilePasses n c body (k+1) s0 s3 ∧
+    ∀ j, whileM (j+1) (whileStep n c body) s1 = whileM j (whileStep n c body) s3 := by
+  refine ⟨hp.snoc hc ht hb rfl, fun j => ?_⟩
+  simp [whileM, bind, whileStep_pass hc ht hb (show passVerdict _ s3 = some true from rfl)]
+
+example : ∃ s3, WhilePasses 6 cTrue (some [.continue 0, .nil]) 1 vm0 s3 :=
+  ⟨_, (continue_innermost_only_while 6 0 cTrue (some [.continue 0, .nil]) vm0 _ _ _ _ (.zero _)
+    (run_ok (evalExpr 6 cTrue) _ K) (cell_bool _ true K) (run_err (evalPureStmtBlock 6 _) _ _ K)).1⟩
+
+/-- `while_retests` on the statement: the loop ends (value 空) exactly when the condition, evaluated again after
+k complete passes, is 假 — in the state in which that test left the machine. -/
+theorem while_ends_when_condition_false (n ln k : Nat) (c : Expr) (body : Option (List Stmt)) (s s1 s2 : VM ν) (a : Addr)
+    (hp : WhilePasses n c body k (setLine ln s) s1) (hk : k < n)
+    (hc : evalExpr n c s1 = (.ok a, s2)) (hf : s2.heap[a]? = some (.bool false)) :
+    evalStmt (n+1) (.while ln c body) s = newNull s2 :=
+  while_stops_after hp hk (whileStep_false hc hf)
+
+/-- `每当 d /= t： d = t`: one pass, then the condition is tested again and is 假 -/
+example : ∃ s2, evalStmt 7 (.while 0 dNeT (some [setD])) vm1 = newNull s2 :=
+  ⟨_, while_ends_when_condition_false 6 0 1 dNeT (some [setD]) vm1 _ _ _
+    (.succ (run_ok (evalExpr 6 dNeT) _ K) (cell_bool _ true K) (run_ok (evalPureStmtBlock 6 _) _ K) K (.zero _))
+    (by decide) (run_ok (evalExpr 6 dNeT) _ K) (cell_bool _ false K)⟩
+
+/-- … and a non-boolean condition, at whichever test, is error 80 (the body is not run for it). -/
+theorem while_non_bool_is_error (n ln k : Nat) (c : Expr) (body : Option (List Stmt)) (s s1 s2 : VM ν) (a : Addr)
+    (cell : Cell ν)
+    (hp : WhilePasses n c body k (setLine ln s) s1) (hk : k < n)
+    (hc : evalExpr n c s1 = (.ok a, s2)) (hcell : s2.heap[a]? = some cell) (hnb : ∀ b, cell ≠ .bool b) :
+    evalStmt (n+1) (.while ln c body) s = (.err (.rt 80), s2) :=
+  while_fails_after hp hk (whileStep_non_bool hc hcell hnb)
+
+example : ∃ s2, evalStmt 7 (.while 0 (.str 0 "x") (some [.nil])) vm0 = (.err (.rt 80), s2) :=
+  ⟨_, while_non_bool_is_error 6 0 0 (.str 0 "x") (some [.nil]) vm0 _ _ _ (.str "x") (.zero _) (by decide)
+    (run_ok (evalExpr 6 _) _ K) (cell_str _ "x" K) (by intro b h; cases h)⟩
+
+/-- the two signals are all a loop catches: any other error of the body (a runtime error, an exception signal)
+ends the loop and is the outcome of the 每当 statement -/
+theorem while_passes_other_errors (n ln k : Nat) (c : Expr) (body : Option (List Stmt)) (s s1 s2 s3 : VM ν) (a : Addr)
+    (e : Err)
+    (hp : WhilePasses n c body k (setLine ln s) s1) (hk : k < n)
+    (hc : evalExpr n c s1 = (.ok a, s2)) (ht : s2.heap[a]? = some (.bool true))
+    (hb : evalPureStmtBlock n body s2 = (.err e, s3)) (h1 : e ≠ .sigBreak) (h2 : e ≠ .sigContinue) :
+    evalStmt (n+1) (.while ln c body) s = (.err e, s3) := by
+  refine while_fails_after hp hk ?_
+  unfold whileStep
+  rw [bind_ok hc]
+  have hg : getCell a s2 = (.ok (.bool true), s2) := by simp [getCell, ht]
+  rw [bind_ok hg]
+  simp only [Model.tryCatch, hb]
+  cases e <;> simp_all [throwE]
+
+/-- 每当 真： ‹nil expression as a statement› — error 80 from the body leaves the loop -/
+example : ∃ s3, evalStmt 7 (.while 0 cTrue (some [.expr .nil, .nil])) vm0 = (.err (.rt 80), s3) :=
+  ⟨_, while_passes_other_errors 6 0 0 cTrue _ vm0 _ _ _ _ _ (.zero _) (by decide)
+    (run_ok (evalExpr 6 cTrue) _ K) (cell_bool _ true K) (run_err (evalPureStmtBlock 6 _) _ _ K)
+    (by decide) (by decide)⟩
+
+/-- `break_innermost_only` (遍历 over a list): the pass for `x` ends with 结束循环: the loop is over, `ok`, 空;
+`post` is not visited. -/
+theorem break_innermost_only_iterate_list (n ln : Nat) (e : Expr) (names : List Ident) (body : Option (List Stmt))
+    (s s1 s2 s3 s4 s5 : VM ν) (target x : Addr) (slots : Option String × Option String) (pre post : List Addr)
+    (hT : evalExpr n e (enterScope (setLine ln s)) = (.ok target, s1))
+    (hS : iterSlots names s1 = (.ok slots, s2))
+    (hcell : s2.heap[target]? = some (.arr (pre ++ x :: post)))
+    (hp : ListPasses n names.length slots body 0 pre s2 s3)
+    (hbind : iterBind n names.length slots s3.heap.size x
+      (pushCell (.num (NumOps.ofInt ((pre.length : Int) + 1))) s3) = (.ok (), s4))
+    (hb : evalPureStmtBlock n body s4 = (.err .sigBreak, s5)) :
+    evalStmt (n+1) (.iterate ln e names body) s = newNull (leaveScope (scopeHandle (setLine ln s)) s5) := by
+  refine iterate_list_ok hT hS hcell ?_
+  rw [untilIdxM_passes hp]
+  apply untilIdxM_stop
+  have := iterListStep_pass (i := 0 + pre.length) (by simpa using hbind) hb
+    (show passVerdict (.err .sigBreak) s5 = some false from rfl)
+  simpa using this
+
+/-- `遍历 ["a","b","c"] 以 v： 如果 v == "b"： 结束循环` -/
+example : ∃ s5, evalStmt 7 (.iterate 0 abc [vId] (some [breakIfB])) vm0 = newNull s5 :=
+  ⟨_, break_innermost_only_iterate_list 6 0 abc [vId] (some [breakIfB]) vm0 _ _ _ _ _ _ _ _ [0] [2]
+    (run_ok (evalExpr 6 abc) _ K) (run_ok (iterSlots [vId]) _ K) (cell_arr _ [0, 1, 2] K)
+    (.cons (run_ok (iterBind 6 1 _ _ _) _ K) (run_ok (evalPureStmtBlock 6 _) _ K) K (.nil _ _))
+    (run_ok (iterBind 6 1 _ _ _) _ K) (run_err (evalPureStmtBlock 6 _) _ _ K)⟩
+
+/-- `break_innermost_only` (遍历 over a dictionary) -/
+theorem break_innermost_only_iterate_dict (n ln : Nat) (e : Expr) (names : List Ident) (body : Option (List Stmt))
+    (s s1 s2 s3 s4 s5 : VM ν) (target v : Addr) (slots : Option String × Option String)
+    (vals vals' : List (String × Addr)) (ord' pre post : List String) (k : String)
+    (hT : evalExpr n e (enterScope (setLine ln s)) = (.ok target, s1))
+    (hS : iterSlots names s1 = (.ok slots, s2))
+    (hcell : s2.heap[target]? = some (.hm vals (pre ++ k :: post)))
+    (hp : DictPasses n names.length slots body target pre s2 s3)
+    (hcell' : s3.heap[target]? = some (.hm vals' ord')) (hl : lookup k vals' = some v)
+    (hbind : iterBind n names.length slots s3.heap.size v (pushCell (.str k) s3) = (.ok (), s4))
+    (hb : evalPureStmtBlock n body s4 = (.err .sigBreak, s5)) :
+    evalStmt (n+1) (.iterate ln e names body) s = newNull (leaveScope (scopeHandle (setLine ln s)) s5) := by
+  refine iterate_dict_ok hT hS hcell ?_
+  rw [untilM_passes hp]
+  apply untilM_stop
+  have := iterDictStep_pass hcell' hl hbind hb (show passVerdict (.err .sigBreak) s5 = some false from rfl)
+  simpa using this
+
+example : ∃ s5, evalStmt 7 (.iterate 0 pqr [vId] (some [breakIfB])) vm0 = newNull s5 :=
+  ⟨_, break_innermost_only_iterate_dict 6 0 pqr [vId] (some [breakIfB]) vm0 _ _ _ _ _ _ 1 _ _ _ _ ["p"] ["r"] "q"
+    (run_ok (evalExpr 6 pqr) _ K) (run_ok (iterSlots [vId]) _ K)
+    (cell_hm _ [("p", 0), ("q", 1), ("r", 2)] ["p", "q", "r"] K)
+    (.cons (cell_hm _ [("p", 0), ("q", 1), ("r", 2)] ["p", "q", "r"] K) (v := 0) K
+      (run_ok (iterBind 6 1 _ _ _) _ K) (run_ok (evalPureStmtBlock 6 _) _ K) K (.nil _))
+    (cell_hm _ [("p", 0), ("q", 1), ("r", 2)] ["p", "q", "r"] K) K
+    (run_ok (iterBind 6 1 _ _ _) _ K) (run_err (evalPureStmtBlock 6 _) _ _ K)⟩
+
+/-- `continue_innermost_only` (遍历): a pass that ends with 继续循环 is a complete pass; the loop goes on with the
+next element and the next index. -/
+theorem continue_innermost_only_iterate (n nameLen i : Nat) (slots : Option String × Option String)
+    (body : Option (List Stmt)) (x : Addr) (xs : List Addr) (s s1 s2 : VM ν)
+    (hbind : iterBind n nameLen slots s.heap.size x (pushCell (.num (NumOps.ofInt ((i : Int) + 1))) s) = (.ok (), s1))
+    (hb : evalPureStmtBlock n body s1 = (.err .sigContinue, s2)) :
+    ListPasses n nameLen slots body i [x] s s2 ∧
+    untilIdxM (iterListStep n nameLen slots body) i (x :: xs) s =
+      untilIdxM (iterListStep n nameLen slots body) (i+1) xs s2 := by
+  have hp : ListPasses n nameLen slots body i [x] s s2 := .cons hbind hb rfl (.nil _ _)
+  exact ⟨hp, by simpa using untilIdxM_passes hp xs⟩
+
+example : ∃ s2, ListPasses 4 0 (none, none) (some [.continue 0, .nil]) 0 [0] (pushCell (.str "a") vm0) s2 :=
+  ⟨_, (continue_innermost_only_iterate 4 0 0 (none, none) (some [.continue 0, .nil]) 0 [] (pushCell (.str "a") vm0) _ _
+    (run_ok (iterBind 4 0 _ _ _) _ K) (run_err (evalPureStmtBlock 4 _) _ _ K)).1⟩
+
+/-! ## 3. 遍历: order, indices, copies -/
+
+/-- `iterate_list_order_and_index`.  遍历 over a list cell `items` (read once, when the loop starts): if the
+passes for `items` — taken in order, the pass at 0-based position i receiving a fresh number cell holding i+1
+as its key (`ListPasses`) — are all complete, the statement is `ok` with value 空 in the state after the last
+pass, the loop's scope ended.  Together with `return_stops_iterate_list` / `break_innermost_only_iterate_list`
+(first incomplete pass) this fixes the visiting order and the 1-based indices for every outcome. -/
+theorem iterate_list_order_and_index (n ln : Nat) (e : Expr) (names : List Ident) (body : Option (List Stmt))
+    (s s1 s2 s3 : VM ν) (target : Addr) (slots : Option String × Option String) (items : List Addr)
+    (hT : evalExpr n e (enterScope (setLine ln s)) = (.ok target, s1))
+    (hS : iterSlots names s1 = (.ok slots, s2))
+    (hcell : s2.heap[target]? = some (.arr items))
+    (hp : ListPasses n names.length slots body 0 items s2 s3) :
+    evalStmt (n+1) (.iterate ln e names body) s = newNull (leaveScope (scopeHandle (setLine ln s)) s3) := by
+  refine iterate_list_ok hT hS hcell ?_
+  have := untilIdxM_passes hp []
+  simpa [untilIdxM_nil] using this
+
+/-- `遍历 ["a","b"] 以 k，v： （空语句）`: two complete passes with keys 1, 2 -/
+example : ∃ s3, evalStmt 7 (.iterate 0 ab [kId, vId] (some [.empty 0])) vm0 = newNull s3 :=
+  ⟨_, iterate_list_order_and_index 6 0 ab [kId, vId] (some [.empty 0]) vm0 _ _ _ _ _ [0, 1]
+    (run_ok (evalExpr 6 ab) _ K) (run_ok (iterSlots [kId, vId]) _ K) (cell_arr _ [0, 1] K)
+    (.cons (run_ok (iterBind 6 2 _ _ _) _ K) (run_ok (evalPureStmtBlock 6 _) _ K) K
+      (.cons (run_ok (iterBind 6 2 _ _ _) _ K) (run_ok (evalPureStmtBlock 6 _) _ K) K (.nil _ _)))⟩
+
+/-- `iterate_dict_insertion_order`.  遍历 over a dictionary cell `.hm vals order`: the passes follow `order` (the
+insertion order kept by the cell, see C12), each key as a fresh text cell, the value looked up at the time of the pass. -/
+theorem iterate_dict_insertion_order (n ln : Nat) (e : Expr) (names : List Ident) (body : Option (List Stmt))
+    (s s1 s2 s3 : VM ν) (target : Addr) (slots : Option String × Option String)
+    (vals : List (String × Addr)) (order : List String)
+    (hT : evalExpr n e (enterScope (setLine ln s)) = (.ok target, s1))
+    (hS : iterSlots names s1 = (.ok slots, s2))
+    (hcell : s2.heap[target]? = some (.hm vals order))
+    (hp : DictPasses n names.length slots body target order s2 s3) :
+    evalStmt (n+1) (.iterate ln e names body) s = newNull (leaveScope (scopeHandle (setLine ln s)) s3) := by
+  refine iterate_dict_ok hT hS hcell ?_
+  have := untilM_passes hp []
+  simpa [untilM_nil] using this
+
+example : ∃ s3, evalStmt 7 (.iterate 0 pq [kId, vId] (some [.empty 0])) vm0 = newNull s3 :=
+  ⟨_, iterate_dict_insertion_order 6 0 pq [kId, vId] (some [.empty 0]) vm0 _ _ _ _ _ _ _
+    (run_ok (evalExpr 6 pq) _ K) (run_ok (iterSlots [kId, vId]) _ K)
+    (cell_hm _ [("p", 0), ("q", 1)] ["p", "q"] K)
+    (.cons (cell_hm _ [("p", 0), ("q", 1)] ["p", "q"] K) (v := 0) K
+      (run_ok (iterBind 6 2 _ _ _) _ K) (run_ok (evalPureStmtBlock 6 _) _ K) K
+      (.cons (cell_hm _ [("p", 0), ("q", 1)] ["p", "q"] K) (v := 1) K
+        (run_ok (iterBind 6 2 _ _ _) _ K) (run_ok (evalPureStmtBlock 6 _) _ K) K (.nil _)))⟩
+
+/-- 遍历 over anything but a list or a dictionary is error 80 -/
+theorem iterate_non_collection_is_error (n ln : Nat) (e : Expr) (names : List Ident) (body : Option (List Stmt))
+    (s s1 s2 : VM ν) (target : Addr) (slots : Option String × Option String) (cell : Cell ν)
+    (hT : evalExpr n e (enterScope (setLine ln s)) = (.ok target, s1))
+    (hS : iterSlots names s1 = (.ok slots, s2))
+    (hcell : s2.heap[target]? = some cell) (hna : ∀ xs, cell ≠ .arr xs) (hnh : ∀ v o, cell ≠ .hm v o) :
+    evalStmt (n+1) (.iterate ln e names body) s = (.err (.rt 80), leaveScope (scopeHandle (setLine ln s)) s2) := by
+  rw [evalStmt_iterate]
+  have hg : getCell target s2 = (.ok cell, s2) := by simp [getCell, hcell]
+  have : withScope (do
+            let target ← evalExpr n e
+            let slots ← iterSlots names
+            iterLoop n names.length slots body target) (setLine ln s) =
+         (.err (.rt 80), leaveScope (scopeHandle (setLine ln s)) s2) := by
+    apply withScope_of
+    rw [bind_ok hT, bind_ok hS]
+    unfold iterLoop
+    rw [bind_ok hg]
+    cases cell <;> simp_all [rtErr, throwE]
+  rw [bind_err this]
+
+example : ∃ s', evalStmt 7 (.iterate 0 (.str 0 "x") [] (some [.nil])) vm0 = (.err (.rt 80), s') :=
+  ⟨_, iterate_non_collection_is_error 6 0 (.str 0 "x") [] (some [.nil]) vm0 _ _ _ _ (.str "x")
+    (run_ok (evalExpr 6 _) _ K) (run_ok (iterSlots []) _ K) (cell_str _ "x" K)
+    (by intro xs h; cases h) (by intro v o h; cases h)⟩
+
+/-- `iterate_binds_copy`.  What a pass binds: with one loop variable `vn`, the variable is set to a *copy* (`dup`,
+value.DuplicateValue) of the element; with two, the first is set to the key cell and the second to the copy; with
+none nothing is bound (the copy is still made).  `iterSlots` yields exactly these shapes (`iterSlots_shape`). -/
+theorem iterate_binds_copy (n : Nat) (kn vn : String) (key v : Addr) :
+    (iterBind n 1 (none, some vn) key v : M ν Unit) = (do let v' ← dup n v; setElement vn v') ∧
+    (iterBind n 2 (some kn, some vn) key v : M ν Unit) = (do let v' ← dup n v; setElement kn key; setElement vn v') ∧
+    (iterBind n 0 (none, none) key v : M ν Unit) = (do let _ ← dup n v; pure ()) :=
+  ⟨rfl, rfl, rfl⟩
+
+theorem iterSlots_shape (names : List Ident) (s s' : VM ν) (slots : Option String × Option String)
+    (h : iterSlots names s = (.ok slots, s')) :
+    (names.length = 0 ∧ slots = (none, none)) ∨ (names.length = 1 ∧ ∃ vn, slots = (none, some vn)) ∨
+    (names.length = 2 ∧ ∃ kn vn, slots = (some kn, some vn)) := by
+  rcases names with _ | ⟨v, _ | ⟨k, _ | ⟨w, rest⟩⟩⟩
+  · simp [iterSlots, pure] at h; exact .inl ⟨rfl, h.1.symm⟩
+  · refine .inr (.inl ⟨rfl, ?_⟩)
+    simp only [iterSlots, bind] at h
+    repeat (split at h <;> try (simp at h; done))
+    simp [pure] at h; exact ⟨_, h.1.symm⟩
+  · refine .inr (.inr ⟨rfl, ?_⟩)
+    simp only [iterSlots, bind] at h
+    repeat (split at h <;> try (simp at h; done))
+    simp [pure] at h; exact ⟨_, _, h.1.symm⟩
+  · simp [iterSlots, rtErr, throwE] at h
+
+example : ∃ slots s', iterSlots [vId] vm0 = (.ok slots, s') := ⟨_, _, run_ok (iterSlots [vId]) vm0 K⟩
+
+/-! ## 1 (continued). 输出 from any nesting depth -/
+
+/-- `return_stops_everything`.  `RetPath n nd s rv sr s'` (Proofs/ControlFlow) describes, for a statement or a block
+`nd`, a path from its beginning into a `输出` nested at *any* depth inside blocks, 如果/再如/否则 alternatives,
+每当 loops and 遍历 loops over lists and dictionaries: before the path only statements that end normally with
+the slot empty, conditions that are 假, complete loop passes; `sr` is the machine right after the 输出 statement.
+Whatever stands after the path — the later statements of every block on it, the later alternatives, every
+remaining loop pass or element — is arbitrary and not evaluated:
+* the construct ends `ok`, a block with the value `rv` of the 输出;
+* the return slot still holds `rv` at the end (so the same holds for whatever contains `nd`);
+* `Quiet sr s'`: between the 输出 and the end nothing is displayed (the trace at the end is the trace right after
+  the 输出), the call stack and the globals are untouched, no existing heap cell is written — the heap only grows
+  by the 空 cells that the finished constructs yield; blocks on the way out end their scopes (the index of `RetPath`).
+Covers: nesting inside one method body / the program.  Not covered here: 输出 inside a method called from an
+expression (that is the callee's frame: C08) and inside exception handlers (C09). -/
+theorem return_stops_everything {n : Nat} {nd : Node} {s sr s' : VM ν} {rv : Addr}
+    (h : RetPath n nd s rv sr s') :
+    retSlot s' = some rv ∧ Quiet sr s' ∧
+    (∀ st, nd = .stmt st → ∃ v, evalStmt n st s = (.ok v, s')) ∧
+    (∀ b, nd = .block b → evalPureStmtBlock n b s = (.ok (some rv), s')) := by
+  induction h with
+  | ret he hst =>
+    refine ⟨by simp [retSlot], Quiet.refl _, ?_, by intro b hb; cases hb⟩
+    intro st hst'; cases hst'; exact ⟨_, evalStmt_ret_ok he hst⟩
+  | @block n pre post st s s1 sr s2 last rv hpre hnd _ ih =>
+    obtain ⟨hr, ho, hs, -⟩ := ih
+    obtain ⟨v, hv⟩ := hs st rfl
+    refine ⟨by rw [retSlot_leaveScope]; exact hr, ho.leaveScope _, (by intro st' h'; cases h'), ?_⟩
+    intro b hb; cases hb
+    exact (return_propagates_block n pre post st s s1 s2 last v rv hpre hnd hv hr).1
+  | @branchIf n ln c ifB elseB others he s s1 sr s2 a rv hc ht _ ih =>
+    obtain ⟨hr, ho, -, hb⟩ := ih
+    refine ⟨hr, ho.newNull, ?_, by intro b h'; cases h'⟩
+    intro st h'; cases h'
+    exact ⟨_, by rw [branch_runs_if_block n ln c ifB elseB others he s s1 a hc ht]; exact bind_ok (hb _ rfl)⟩
+  | @branchOther n ln c oc ifB elseB ob pre post he s s1 s2 s3 sr s4 a b rv hc hf hpre hoc hot _ ih =>
+    obtain ⟨hr, ho, -, hb⟩ := ih
+    refine ⟨hr, ho.newNull, ?_, by intro b h'; cases h'⟩
+    intro st h'; cases h'
+    exact ⟨_, by
+      rw [branch_runs_first_true_other n ln c oc ifB elseB ob pre post he s s1 s2 s3 a b hc hf hpre hoc hot]
+      exact bind_ok (hb _ rfl)⟩
+  | @branchElse n ln c ifB elseB others s s1 s2 sr s3 a rv hc hf hall _ ih =>
+    obtain ⟨hr, ho, -, hb⟩ := ih
+    refine ⟨hr, ho.newNull, ?_, by intro b h'; cases h'⟩
+    intro st h'; cases h'
+    exact ⟨_, by rw [branch_runs_else n ln c ifB elseB others s s1 s2 a hc hf hall]; exact bind_ok (hb _ rfl)⟩
+  | @«while» n ln k c body s s1 s2 sr s3 a rv hp hk hc ht _ ih =>
+    obtain ⟨hr, ho, -, hb⟩ := ih
+    refine ⟨hr, ho.newNull, ?_, by intro b h'; cases h'⟩
+    intro st h'; cases h'
+    exact ⟨_, (return_stops_while n ln k c body s s1 s2 s3 a rv _ hp hk hc ht (hb _ rfl) hr).1⟩
+  | @iterList n ln e names body s s1 s2 s3 s4 sr s5 target x rv slots pre post hT hS hcell hp hbind _ ih =>
+    obtain ⟨hr, ho, -, hb⟩ := ih
+    refine ⟨by rw [retSlot_newNull, retSlot_leaveScope]; exact hr, (ho.leaveScope _).newNull,
+      ?_, by intro b h'; cases h'⟩
+    intro st h'; cases h'
+    exact ⟨_, (return_stops_iterate_list n ln e names body s s1 s2 s3 s4 s5 target x rv _ slots pre post
+      hT hS hcell hp hbind (hb _ rfl) hr).1⟩
+  | @iterDict n ln e names body s s1 s2 s3 s4 sr s5 target v rv slots vals vals' ord' pre post k
+      hT hS hcell hp hcell' hl hbind _ ih =>
+    obtain ⟨hr, ho, -, hb⟩ := ih
+    refine ⟨by rw [retSlot_newNull, retSlot_leaveScope]; exact hr, (ho.leaveScope _).newNull,
+      ?_, by intro b h'; cases h'⟩
+    intro st h'; cases h'
+    exact ⟨_, (return_stops_iterate_dict n ln e names body s s1 s2 s3 s4 s5 target v rv _ slots vals vals' ord' pre post k
+      hT hS hcell hp hcell' hl hbind (hb _ rfl) hr).1⟩
+
+/-- the two readings of `return_stops_everything`: for a block … -/
+theorem return_stops_everything_block {n : Nat} {b : Option (List Stmt)} {s sr s' : VM ν} {rv : Addr}
+    (h : RetPath n (.block b) s rv sr s') :
+    evalPureStmtBlock n b s = (.ok (some rv), s') ∧ ReturnSet s' ∧ Quiet sr s' :=
+  have h' := return_stops_everything h
+  ⟨h'.2.2.2 b rfl, (returnSet_iff _).2 ⟨rv, h'.1⟩, h'.2.1⟩
+
+/-- … and for a statement -/
+theorem return_stops_everything_stmt {n : Nat} {st : Stmt} {s sr s' : VM ν} {rv : Addr}
+    (h : RetPath n (.stmt st) s rv sr s') :
+    (∃ v, evalStmt n st s = (.ok v, s')) ∧ ReturnSet s' ∧ Quiet sr s' :=
+  have h' := return_stops_everything h
+  ⟨h'.2.2.1 st rfl, (returnSet_iff _).2 ⟨rv, h'.1⟩, h'.2.1⟩
+
+/-- 输出 four constructs deep, a nil statement (Go panic if reached) after every construct on the way:
+`（空）； 每当 真：｛ 如果 真：｛ 遍历 ["a","b"]：｛ 输出 "x"； ‹nil› ｝ ‹nil› ｝ ‹nil› ｝ ‹nil›` -/
+example : ∃ rv, ∃ sr s' : VM Int,
+    evalPureStmtBlock 9 (some nested) vm0 = (.ok (some rv), s') ∧ ReturnSet s' ∧ Quiet sr s' := by
+  apply Exists.intro; apply Exists.intro; apply Exists.intro
+  apply return_stops_everything_block
+  apply RetPath.block (pre := [.empty 0]) (post := [.nil])
+  · exact .stmt rfl (run_ok (evalStmt 8 _) _ K) K (.nil _ _)
+  · rfl
+  apply RetPath.while (k := 0) (.zero _) (by decide)
+  · exact run_ok (evalExpr 7 cTrue) _ K
+  · exact cell_bool _ true K
+  apply RetPath.block (pre := []) (post := [.nil]) (.nil _ _) rfl
+  apply RetPath.branchIf
+  · exact run_ok (evalExpr 5 cTrue) _ K
+  · exact cell_bool _ true K
+  apply RetPath.block (pre := []) (post := [.nil]) (.nil _ _) rfl
+  apply RetPath.iterList (pre := []) (post := [8])
+  · exact run_ok (evalExpr 3 ab) _ K
+  · exact run_ok (iterSlots []) _ K
+  · exact cell_arr _ [7, 8] K
+  · exact .nil _ _
+  · exact run_ok (iterBind 3 0 _ _ _) _ K
+  apply RetPath.block (pre := []) (post := [.nil]) (.nil _ _) rfl
+  exact RetPath.ret (fr := { moduleId := 0, callType := 1 }) (rest := []) (run_ok (evalExpr 1 _) _ K) K
+
+/-- NOT PROVED (kept as the full statement): the converse of `return_stops_everything` — `RetPath` describes *every*
+way in which a block can end `ok` with the slot newly set, i.e. only a 输出 statement of the block (at some depth)
+sets the slot of the frame the block runs in.  Missing: the frame discipline of `evalExpr` (a call that ends `ok`
+has pushed and popped exactly one frame and has not touched the caller's slot; handlers run in their own frame),
+an induction over the whole mutual evaluator that belongs to C08/C09.  `return_stops_everything` is the direction
+the property states ("输出 … ends … immediately"); this one would add "and nothing else does". -/
+def return_path_complete_full : Prop :=
+  ∀ (ν : Type) [NumOps ν] (n : Nat) (b : Option (List Stmt)) (s s' : VM ν) (r : Option Addr) (rv : Addr),
+    retSlot s = none → evalPureStmtBlock n b s = (.ok r, s') → retSlot s' = some rv →
+    ∃ sr, RetPath n (.block b) s rv sr s'
+
+/-! ## 5. the value of a body -/
+
+/-- `输出 ends the enclosing method body (or the whole program)`.  A body (`evalExecBlock`: the program, a method, a
+constructor) whose statement block ends with the slot holding `rv` — by `return_stops_everything`, a 输出 at any
+depth — yields `rv`; the state is the one the block left, with the body's scope ended.  (`hpre`: binding of 此
+and of the inputs succeeded; `hh`: the hoisted definitions were executed.) -/
+theorem return_ends_body (n : Nat) (inputs : List Ident) (stmts : List Stmt)
+    (catches : List (Option Ident × Option (List Stmt))) (params : List Addr) (s s1 s2 s3 : VM ν) (rv : Addr)
+    (hpre : execPrelude inputs params (enterScope s) = (.ok (), s1))
+    (hh : hoistDecls n stmts s1 = (.ok (), s2))
+    (hb : evalPureStmtBlock n (some stmts) s2 = (.ok (some rv), s3)) :
+    evalExecBlock (n+2) (some (.mk inputs (some stmts) catches)) params s = (.ok rv, leaveScope (scopeHandle s) s3) := by
+  rw [evalExecBlock_eq]
+  apply withScope_of
+  show (getVM >>= _) (enterScope s) = _
+  rw [bind_ok (rfl : getVM (enterScope s) = (.ok (enterScope s), enterScope s)), bind_ok hpre]
+  have : evalStmtBlock (n+1) (some stmts) s1 = (.ok (some rv), s3) := by
+    rw [evalStmtBlock_eq, bind_ok hh]; exact hb
+  simp [Model.tryCatch, this, execFinish, pure]
+
+/-- the program `nested` (输出 "x" four constructs deep) as the body of the main program: its value is that "x" -/
+example : ∃ rv s', evalExecBlock 11 (some (.mk [] (some nested) [])) [] vm0 = (.ok rv, s') ∧ s'.heap[rv]? = some (.str "x") :=
+  ⟨_, _, return_ends_body 9 [] nested [] [] vm0 _ _ _ _
+    (run_ok (execPrelude [] []) _ K) (run_ok (hoistDecls 9 nested) _ K) (run_ok_some (evalPureStmtBlock 9 _) _ K),
+    cell_str _ "x" K⟩
+
+/-- … and for the whole program (no inputs, no imports): `runProgram` = allocate 主模块, push the script frame
+(`programStart`), run the body with `evalExecBlock`, pop the frame; so the value of the program is the value of
+its body — `rv` of a 输出 at any depth (`return_ends_body`), else the final expression (`final_expression_value`). -/
+theorem program_value_is_body_value (fuel : Nat) (body : Option (List Stmt))
+    (catches : List (Option Ident × Option (List Stmt))) (inputs : List (String × Cell ν)) (s s2 : VM ν) (v : Addr)
+    (fr : Frame) (rest : List Frame)
+    (hb : evalExecBlock fuel (some (.mk [] body catches)) [] (programStart s) = (.ok v, s2))
+    (hst : s2.stack = fr :: rest) :
+    ∃ s3, runProgram fuel ⟨[], some (.mk [] body catches)⟩ inputs s = (.ok v, s3) ∧ s3.out = s2.out ∧ s3.heap = s2.heap := by
+  rw [runProgram_eq, bind_ok hb]
+  simp [bind, popFrame, hst, pure]
+
+/-- the program `nested`: its result is the text "x" of the 输出 four constructs deep -/
+example : ∃ v s3, runProgram 11 ⟨[], some (.mk [] (some nested) [])⟩ [] (initVM (ν := Int) ()) = (.ok v, s3) ∧
+    s3.heap[v]? = some (.str "x") := by
+  obtain ⟨s3, h, -, hh⟩ := program_value_is_body_value 11 (some nested) [] [] (initVM (ν := Int) ()) _ _ _ _
+    (run_ok (evalExecBlock 11 _ _) _ K) (stack_cons _ K)
+  exact ⟨_, s3, h, by rw [hh]; exact cell_str _ "x" K⟩
+
+/-- `final_expression_value`.  A body none of whose statements leaves the return slot set (`Steps`: no 输出 was
+executed) runs all of them; its value is the value of the last statement that is not a definition
+(`pre ++ st :: ds` with `ds` definitions only) … -/
+theorem final_expression_value (n : Nat) (inputs : List Ident) (pre ds : List Stmt) (st : Stmt)
+    (catches : List (Option Ident × Option (List Stmt))) (params : List Addr) (s s1 s2 s3 s4 : VM ν)
+    (last : Option Addr) (v : Addr)
+    (hpre : execPrelude inputs params (enterScope s) = (.ok (), s1))
+    (hh : hoistDecls (n+1) (pre ++ st :: ds) s1 = (.ok (), s2))
+    (hsteps : Steps (evalStmt n) none pre (enterScope s2) last s3)
+    (hnd : isDecl st = false) (hds : ∀ d ∈ ds, isDecl d = true)
+    (hst : evalStmt n st s3 = (.ok v, s4)) (hempty : retSlot s4 = none) :
+    evalExecBlock (n+3) (some (.mk inputs (some (pre ++ st :: ds)) catches)) params s =
+      (.ok v, leaveScope (scopeHandle s) (leaveScope (scopeHandle s2) s4)) := by
+  rw [evalExecBlock_eq]
+  apply withScope_of
+  show (getVM >>= _) (enterScope s) = _
+  rw [bind_ok (rfl : getVM (enterScope s) = (.ok (enterScope s), enterScope s)), bind_ok hpre]
+  have hall : Steps (evalStmt n) none (pre ++ st :: ds) (enterScope s2) (some v) s4 :=
+    hsteps.append (.stmt hnd hst hempty (Steps.decls _ ds s4 hds hempty))
+  have : evalStmtBlock (n+2) (some (pre ++ st :: ds)) s1 = (.ok (some v), leaveScope (scopeHandle s2) s4) := by
+    rw [evalStmtBlock_eq, bind_ok hh]
+    exact block_runs_to_end n _ s2 s4 _ hall
+  simp [Model.tryCatch, this, execFinish, pure]
+
+/-- `（空）； "x"； 如何f？…` : the value of the body is the text "x" (the definition after it does not count) -/
+example : ∃ v s', evalExecBlock 6 (some (.mk [] (some ([.empty 0] ++ .expr (.str 0 "x") :: [fDecl])) [])) [] vm0 = (.ok v, s') ∧
+    s'.heap[v]? = some (.str "x") :=
+  ⟨_, _, final_expression_value 3 [] [.empty 0] [fDecl] (.expr (.str 0 "x")) [] [] vm0 _ _ _ _ _ _
+    (run_ok (execPrelude [] []) _ K) (run_ok (hoistDecls 4 _) _ K)
+    (.stmt rfl (run_ok (evalStmt 3 _) _ K) K (.nil _ _)) rfl (by intro d hd; simp at hd; subst hd; rfl)
+    (run_ok (evalStmt 3 _) _ K) K, cell_str _ "x" K⟩
+
+/-- … and 空 when there is no such statement (an empty body, or definitions only): a fresh 空 cell, allocated
+after the block's scope was ended. -/
+theorem final_expression_value_empty (n : Nat) (inputs : List Ident) (ds : List Stmt)
+    (catches : List (Option Ident × Option (List Stmt))) (params : List Addr) (s s1 s2 : VM ν)
+    (hpre : execPrelude inputs params (enterScope s) = (.ok (), s1))
+    (hh : hoistDecls (n+1) ds s1 = (.ok (), s2))
+    (hds : ∀ d ∈ ds, isDecl d = true) (hempty : retSlot s2 = none) :
+    evalExecBlock (n+3) (some (.mk inputs (some ds) catches)) params s =
+      (.ok s2.heap.size,
+       leaveScope (scopeHandle s) (newNull (leaveScope (scopeHandle s2) (enterScope s2))).2) := by
+  rw [evalExecBlock_eq]
+  apply withScope_of
+  show (getVM >>= _) (enterScope s) = _
+  rw [bind_ok (rfl : getVM (enterScope s) = (.ok (enterScope s), enterScope s)), bind_ok hpre]
+  have hall : Steps (evalStmt n) none ds (enterScope s2) none (enterScope s2) :=
+    Steps.decls _ ds _ hds (by rw [retSlot_enterScope]; exact hempty)
+  have : evalStmtBlock (n+2) (some ds) s1 = (.ok none, leaveScope (scopeHandle s2) (enterScope s2)) := by
+    rw [evalStmtBlock_eq, bind_ok hh]
+    exact block_runs_to_end n _ s2 _ _ hall
+  simp [Model.tryCatch, this, execFinish, newNull_eq, leaveScope_heap, enterScope_heap]
+
+example : ∃ v s', evalExecBlock 6 (some (.mk [] (some [fDecl]) [])) [] vm0 = (.ok v, s') ∧ s'.heap[v]? = some .null :=
+  ⟨_, _, final_expression_value_empty 3 [] [fDecl] [] [] vm0 _ _
+    (run_ok (execPrelude [] []) _ K) (run_ok (hoistDecls 4 _) _ K) (by intro d hd; simp at hd; subst hd; rfl) K,
+    cell_null _ K⟩
+
+/-! ## 6. The spec semantics (`Spec/Sem.lean`) says the same, with outcomes instead of a slot
+
+There 输出 is the outcome `.ret v`, 结束循环 `.brk`, 继续循环 `.cont`; sequencing is the bind of `SM`. -/
+
+open ZnVerif.Proofs.ControlFlowSpec
+
+/-- `spec_return_propagates` — the law of `SM`: whatever follows a computation that ended with `.ret v` is skipped -/
+theorem spec_return_skips_continuation {α β} (m : Spec.SM ν α) (f : α → Spec.SM ν β) (s s' : Spec.SState ν)
+    (v : Spec.SVal ν) (h : m s = (.ret v, s')) : (m >>= f) s = (.ret v, s') :=
+  sbind_ret h
+
+example : ((Spec.sfail (.ret .null) : Spec.SM Int Unit) >>= fun _ => Spec.sfail .unspecified) sp0 =
+    ((.ret .null, sp0) : Spec.R Int Unit × _) :=
+  spec_return_skips_continuation _ _ sp0 sp0 .null rfl
+
+/-- `spec_return_propagates` on a statement list: once a statement ends with `.ret v`, the list ends with `.ret v`
+in that very state; `post` is not executed. -/
+theorem spec_return_propagates (n : Nat) (pre post : List Stmt) (st : Stmt) (s s1 s2 : Spec.SState ν)
+    (v0 v : Spec.SVal ν)
+    (hpre : SRuns n .null pre s v0 s1) (hst : Spec.execS n st s1 = (.ret v, s2)) :
+    Spec.runStmts (n+1) (pre ++ st :: post) s = (.ret v, s2) := by
+  simp only [Spec.runStmts]
+  rw [foldlM_sruns hpre]
+  simp [List.foldlM_cons, bind, hst]
+
+example : ∃ v s2, Spec.runStmts 4 ([.empty 0] ++ retX :: [.nil]) sp0 = (.ret v, s2) :=
+  ⟨_, _, spec_return_propagates 3 [.empty 0] [.nil] retX sp0 _ _ _ _ (.cons rfl (.nil _ _)) rfl⟩
+
+/-- … through a nested block (its scope is closed on the way out) … -/
+theorem spec_return_through_block (n : Nat) (stmts : List Stmt) (s s2 : Spec.SState ν) (v : Spec.SVal ν)
+    (h : Spec.runStmts n (stmts.filter notDecl) { s with env := [] :: s.env } = (.ret v, s2)) :
+    Spec.runBlock (n+1) (some stmts) s = (.ret v, { s2 with env := s2.env.drop 1 }) := by
+  rw [runBlock_eq]
+  simp [Spec.withBlock, bind, Spec.modS, Spec.catchR, h, Spec.sfail]
+
+example : ∃ v s2, Spec.runBlock 5 (some [retX, .nil]) sp0 = (.ret v, s2) :=
+  ⟨_, _, spec_return_through_block 4 [retX, .nil] sp0 _ _ rfl⟩
+
+/-- … and out of a 每当 loop: no further test, no further pass. -/
+theorem spec_return_stops_while (n ln k : Nat) (c : Expr) (body : Option (List Stmt)) (s s1 s2 s3 : Spec.SState ν)
+    (v : Spec.SVal ν)
+    (hp : SWhilePasses n c body k s s1) (hk : k < n)
+    (hc : Spec.evalE n c s1 = (.ok (.bool true), s2)) (hb : Spec.runBlock n body s2 = (.ret v, s3)) :
+    Spec.execS (n+1) (.while ln c body) s = (.ret v, s3) := by
+  rw [execS_while]
+  have := spec_while_after hp hk (specWhileStep_ret hc hb) (by intro h; cases h)
+  exact sbind_ret this
+
+example : ∃ v s3, Spec.execS 6 (.while 0 cTrue (some [retX, .nil])) sp0 = (.ret v, s3) :=
+  ⟨_, _, spec_return_stops_while 5 0 0 cTrue (some [retX, .nil]) sp0 _ _ _ _ (.zero _) (by decide) rfl rfl⟩
+
+/-- `spec_break_innermost`: `.brk` from the body is consumed by the loop whose body it is; that loop ends `ok`
+(value 空), so nothing outside it ever sees the `.brk`. -/
+theorem spec_break_innermost (n ln k : Nat) (c : Expr) (body : Option (List Stmt)) (s s1 s2 s3 : Spec.SState ν)
+    (hp : SWhilePasses n c body k s s1) (hk : k < n)
+    (hc : Spec.evalE n c s1 = (.ok (.bool true), s2)) (hb : Spec.runBlock n body s2 = (.brk, s3)) :
+    Spec.execS (n+1) (.while ln c body) s = (.ok .null, s3) := by
+  rw [execS_while]
+  have := spec_while_after hp hk (specWhileStep_pass hc hb (b := false) rfl) (by intro h; cases h)
+  rw [sbind_ok this]; rfl
+
+example : ∃ s3, Spec.execS 6 (.while 0 cTrue (some [.break 0, .nil])) sp0 = (.ok .null, s3) :=
+  ⟨_, spec_break_innermost 5 0 0 cTrue (some [.break 0, .nil]) sp0 _ _ _ (.zero _) (by decide) rfl rfl⟩
+
+/-- `spec_while_retests`: after a pass that ended `ok` or with `.cont` the loop is at its beginning again — the next
+thing it does is evaluate the condition (`specWhileStep` = test, then pass) — and it ends `ok` with 空 exactly when
+that test gives 假. -/
+theorem spec_while_retests (n ln k : Nat) (c : Expr) (body : Option (List Stmt)) (s s1 s2 : Spec.SState ν)
+    (hp : SWhilePasses n c body k s s1) (hk : k < n) :
+    (∀ j, Spec.whileS (k + j) (specWhileStep n c body) s = Spec.whileS j (specWhileStep n c body) s1) ∧
+    (Spec.evalE n c s1 = (.ok (.bool false), s2) → Spec.execS (n+1) (.while ln c body) s = (.ok .null, s2)) := by
+  refine ⟨whileS_passes hp, fun hc => ?_⟩
+  rw [execS_while]
+  have := spec_while_after hp hk (specWhileStep_false (body := body) hc) (by intro h; cases h)
+  rw [sbind_ok this]; rfl
+
+example : ∃ s2, Spec.execS 6 (.while 0 cFalse (some [.nil])) sp0 = (.ok .null, s2) :=
+  ⟨_, (spec_while_retests 5 0 0 cFalse (some [.nil]) sp0 _ _ (.zero _) (by decide)).2 rfl⟩
 
 end ZnVerif.Properties.C02
